@@ -524,6 +524,10 @@ func fatWindows(c *hx.Ctx, w *world, s0 []byte) ([]string, bool) {
 				run = -1
 			}
 		}
+		if run >= 0 {
+			// a region cut inside its last granule: the loop above ends before it closes the run
+			out = append(out, fmt.Sprintf("%d:%s", lo+run, hex.EncodeToString(b[run:])))
+		}
 	}
 	return out, true
 }
